@@ -37,6 +37,7 @@ const verifDir = "/verif"
 
 type ReplayFile struct {
 	Property  string            `json:"property"`
+	Scenario  string            `json:"scenario,omitempty"`
 	Tier      string            `json:"tier"`
 	Seed      int64             `json:"seed"`
 	Tape      []int             `json:"tape"`
@@ -94,15 +95,19 @@ type runOut struct {
 	tape   []int
 	digest string
 	wall   time.Duration
+	scen   string
 }
 
 var workerBin = filepath.Join(verifDir, "bin", "worker.test")
 
-func runWorker(prop, tier string, seed int64, tape []int, gomaxprocs int, limit time.Duration) *runOut {
+func runWorker(prop, scen, tier string, seed int64, tape []int, gomaxprocs int, limit time.Duration) *runOut {
+	if scen == "" {
+		scen = prop
+	}
 	ctx, cancel := context.WithTimeout(context.Background(), limit)
 	defer cancel()
 	cmd := exec.CommandContext(ctx, workerBin, "-test.run", "^TestRun$", "-test.timeout", "0")
-	env := append(os.Environ(), "VERIF_PROP="+prop, "VERIF_TIER="+tier, "VERIF_SEED="+strconv.FormatInt(seed, 10),
+	env := append(os.Environ(), "VERIF_PROP="+scen, "VERIF_TIER="+tier, "VERIF_SEED="+strconv.FormatInt(seed, 10),
 		"GODEBUG=randseednop=0", "GOMAXPROCS="+strconv.Itoa(gomaxprocs), "GOTRACEBACK=all")
 	var rfPath string
 	if tape != nil {
@@ -112,7 +117,7 @@ func runWorker(prop, tier string, seed int64, tape []int, gomaxprocs int, limit 
 			os.Exit(2)
 		}
 		rfPath = f.Name()
-		b, _ := json.Marshal(ReplayFile{Property: prop, Tier: tier, Seed: seed, Tape: tape})
+		b, _ := json.Marshal(ReplayFile{Property: scen, Tier: tier, Seed: seed, Tape: tape})
 		_, _ = f.Write(b)
 		_ = f.Close()
 		defer os.Remove(rfPath)
@@ -123,7 +128,7 @@ func runWorker(prop, tier string, seed int64, tape []int, gomaxprocs int, limit 
 	cmd.Stdout, cmd.Stderr = &stdout, &stderr
 	t0 := time.Now()
 	err := cmd.Run()
-	out := &runOut{seed: seed, wall: time.Since(t0)}
+	out := &runOut{seed: seed, wall: time.Since(t0), scen: scen}
 	run := &oracle.Run{Prop: prop, Stderr: stderr.String()}
 	if ctx.Err() != nil {
 		run.Hung = true
@@ -180,7 +185,7 @@ func sameRule(o *runOut, rule string) *oracle.Violation {
 	return nil
 }
 
-func minimise(prop, tier string, seed int64, tape []int, rule string, budget time.Duration) []int {
+func minimise(prop, scen, tier string, seed int64, tape []int, rule string, budget time.Duration) []int {
 	deadline := time.Now().Add(budget)
 	tries := 0
 	test := func(cands [][]int) int {
@@ -197,7 +202,7 @@ func minimise(prop, tier string, seed int64, tape []int, rule string, budget tim
 			go func(i int) {
 				defer wg.Done()
 				defer func() { <-sem }()
-				o := runWorker(prop, tier, seed, cands[i], 1, 30*time.Second)
+				o := runWorker(prop, scen, tier, seed, cands[i], 1, 30*time.Second)
 				res[i] = sameRule(o, rule) != nil
 			}(i)
 			tries++
@@ -389,7 +394,11 @@ func check(args []string) int {
 			defer wg.Done()
 			for i := range jobs {
 				seed := deriveSeed(base, *prop, i)
-				o := runWorker(*prop, *tier, seed, nil, 1, spec.runLimit)
+				scen := *prop
+				if len(spec.scenarios) > 0 {
+					scen = spec.scenarios[i%len(spec.scenarios)]
+				}
+				o := runWorker(*prop, scen, *tier, seed, nil, 1, spec.runLimit)
 				a.Lock()
 				a.evaluations++
 				th := hashStr(o.res.TraceHash)
@@ -472,12 +481,12 @@ func check(args []string) int {
 	for _, rule := range rules {
 		o := a.viol[rule]
 		v := sameRule(o, rule)
-		mt := minimise(*prop, *tier, o.seed, o.tape, rule, 90*time.Second)
+		mt := minimise(*prop, o.scen, *tier, o.seed, o.tape, rule, 90*time.Second)
 		// reproducibility gate: three fresh replays must fail with the same rule and digest
 		var first *runOut
 		okRepro := true
 		for k := 0; k < 3; k++ {
-			r := runWorker(*prop, *tier, o.seed, mt, 1, 30*time.Second)
+			r := runWorker(*prop, o.scen, *tier, o.seed, mt, 1, 30*time.Second)
 			if sameRule(r, rule) == nil {
 				okRepro = false
 				break
@@ -495,7 +504,7 @@ func check(args []string) int {
 			okRepro = true
 			mt = o.tape
 			for k := 0; k < 3; k++ {
-				r := runWorker(*prop, *tier, o.seed, mt, 1, 30*time.Second)
+				r := runWorker(*prop, o.scen, *tier, o.seed, mt, 1, 30*time.Second)
 				if sameRule(r, rule) == nil || (first != nil && r.digest != first.digest) {
 					okRepro = false
 					break
@@ -511,7 +520,7 @@ func check(args []string) int {
 			continue
 		}
 		v = sameRule(first, rule)
-		rf := ReplayFile{Property: *prop, Tier: *tier, Seed: o.seed, Tape: mt, Violation: v, Digest: first.digest, Steps: stepList(first.run.Evs), Faults: first.res.Faults}
+		rf := ReplayFile{Property: *prop, Scenario: o.scen, Tier: *tier, Seed: o.seed, Tape: mt, Violation: v, Digest: first.digest, Steps: stepList(first.run.Evs), Faults: first.res.Faults}
 		_ = os.MkdirAll(filepath.Join(verifDir, "replays"), 0o755)
 		name := fmt.Sprintf("%s-%s-%d.json", *prop, strings.ReplaceAll(strings.TrimPrefix(rule, *prop+"/"), "/", "_"), o.seed)
 		path := filepath.Join(verifDir, "replays", name)
@@ -648,7 +657,7 @@ func replay(args []string) int {
 	if tier == "" {
 		tier = "quick"
 	}
-	o := runWorker(rf.Property, tier, rf.Seed, rf.Tape, 1, 60*time.Second)
+	o := runWorker(rf.Property, rf.Scenario, tier, rf.Seed, rf.Tape, 1, 60*time.Second)
 	if verbose {
 		for i := range o.run.Evs {
 			if o.run.Evs[i].K == "d" {
@@ -706,8 +715,11 @@ func selftest(args []string) int {
 	if *propList != "" {
 		ps = strings.Split(*propList, ",")
 	} else {
-		for p := range props {
-			ps = append(ps, p)
+		for p, sp := range props {
+			if len(sp.scenarios) == 0 {
+				ps = append(ps, p)
+			}
+			ps = append(ps, sp.scenarios...)
 		}
 		sort.Strings(ps)
 	}
@@ -739,7 +751,7 @@ func selftest(args []string) int {
 		go func(i int, j job) {
 			defer wg.Done()
 			defer func() { <-sem }()
-			o := runWorker(j.prop, "quick", j.seed, nil, j.gmp, 60*time.Second)
+			o := runWorker(propOfScenario(j.prop), j.prop, "quick", j.seed, nil, j.gmp, 60*time.Second)
 			out[i] = res{j, o.digest + "/" + o.res.DeathKind}
 		}(i, j)
 	}
